@@ -71,7 +71,67 @@ def c01_cases():
                            'dirty': 1}
 
 
+EXTRAS = ['3', '9', '53', '7', '26', '8']
+
+
+def stack_cases():
+    """Stack sweep: every sequence of length 1-3 over {A, B, clear} of one effect group, together with 0-3
+    settings of other groups that stop (or start) next to it, in three layouts on 'abc':
+      stop_beside : extras on [0,1), stack on [0,3)   (extras stop while the stack stays active)
+      seam        : extras on [0,1), stack on [1,3)   (stack starts where the extras stop)
+      stack_stops : stack on [0,2), extras on [0,3)   (stack stops while the extras stay)"""
+    import itertools
+    for g in T.GROUPS:
+        sets, clear = GROUP_VALUES[g]
+        a = sets[0]
+        b = sets[1] if len(sets) > 1 else clear
+        alphabet = list(dict.fromkeys([a, b, clear]))
+        extras = [e for e in EXTRAS if e not in sets and e != clear][:3]
+        for n in (1, 2, 3):
+            for stack in itertools.product(alphabet, repeat=n):
+                for k in range(0, len(extras) + 1):
+                    for layout in ('stop_beside', 'seam', 'stack_stops'):
+                        yield {'kind': 'stack', 'group': g, 'stack': list(stack), 'extras': extras[:k], 'layout': layout}
+
+
+def build_stack_case(case):
+    s = AnsiString('abc')
+    lay = case['layout']
+    ex_rng = (0, 3) if lay == 'stack_stops' else (0, 1)
+    st_rng = {'stop_beside': (0, 3), 'seam': (1, 3), 'stack_stops': (0, 2)}[lay]
+    for e in case['extras']:
+        s.apply_formatting(AnsiSetting(e), *ex_rng)
+    for c in case['stack']:
+        s.apply_formatting(AnsiSetting(c), *st_rng)
+    return s
+
+
+def check_stack_case(case, prop):
+    v = build_stack_case(case)
+    o = observe(v)
+    if prop == 'C01':
+        display.check_value(v, o, 'stack_sweep', 1, {})
+        display.check_value(AnsiStr(v), observe(AnsiStr(v)), 'stack_sweep.ansistr', 0, {})
+    else:
+        from . import oracles
+        rt = AnsiString(str(v))
+        oracles.c03_check_roundtrip(o, observe(rt))
+        c = v.copy()
+        c.simplify()
+        oracles.c03_check_simplify(o, observe(c), c)
+
+
 def replay(doc):
+    if doc['case'].get('kind') == 'stack':
+        try:
+            check_stack_case(doc['case'], doc['property'])
+        except Fail as f:
+            return Violation(doc['property'], f.predicate, 0, f.detail)
+        return None
+    return _replay_bridge(doc)
+
+
+def _replay_bridge(doc):
     try:
         check_case(doc['case'])
     except Fail as f:
@@ -79,13 +139,40 @@ def replay(doc):
     return None
 
 
+def _write_violation(prop, case, v, out_dir, n, info):
+    path = os.path.join(out_dir, '%s-sweep-%d.json' % (prop, n))
+    os.makedirs(out_dir, exist_ok=True)
+    with open(path, 'w') as fh:
+        json.dump({'kind': 'sweep', 'property': prop, 'case': case, 'violation': v.to_json(),
+                   'library_digest': lib.library_digest()}, fh, indent=1, default=repr)
+    info['violation'] = v.to_json()
+    info['replay'] = path
+    info['cases'] = n
+    return info
+
+
 def run_for(prop, tier, out_dir):
     info = {'cases': 0, 'exhaustive_sweep': False, 'probes': {}}
-    if prop != 'C01':
+    if prop not in ('C01', 'C03'):
         return info
     lib.AnsiString.WITH_ASSERTIONS = True
     probes = {}
     n = 0
+    for case in stack_cases():
+        n += 1
+        try:
+            check_stack_case(case, prop)
+        except Fail as f:
+            return _write_violation(prop, case, Violation(prop, f.predicate, 0, f.detail), out_dir, n, info)
+        key = 'stack:%s:%d_extras' % (case['layout'], len(case['extras']))
+        probes[key] = probes.get(key, 0) + 1
+    info['stack_sweep_cases'] = n
+    if prop != 'C01':
+        lib.AnsiString.WITH_ASSERTIONS = False
+        info['cases'] = n
+        info['exhaustive_sweep'] = True
+        info['probes'] = probes
+        return info
     for case in c01_cases():
         n += 1
         try:
